@@ -77,7 +77,8 @@ func (p *polling) OnRequest(ctx *types.HttpContext) {
 
 // The client sends a request awaiting for us to send data.
 func (p *polling) onPollRequest(ctx *types.HttpContext) {
-	if p.req.Load() != nil {
+	// test and claim in one step: two concurrent polls must not both pass
+	if !p.req.CompareAndSwap(nil, ctx) {
 		polling_log.Debug("request overlap")
 		// assert: p.res, '.req should be (un)set together'
 		p.OnError("overlap from client", nil)
@@ -85,8 +86,6 @@ func (p *polling) onPollRequest(ctx *types.HttpContext) {
 		ctx.Write(nil)
 		return
 	}
-
-	p.req.Store(ctx)
 
 	polling_log.Debug("setting request")
 
@@ -118,7 +117,8 @@ func (p *polling) onPollRequest(ctx *types.HttpContext) {
 
 // The client sends a request with data.
 func (p *polling) onDataRequest(ctx *types.HttpContext) {
-	if p.dataCtx.Load() != nil {
+	// test and claim in one step: two concurrent data requests must not both pass
+	if !p.dataCtx.CompareAndSwap(nil, ctx) {
 		// assert: p.dataRes, '.dataCtx should be (un)set together'
 		p.OnError("data request overlap from client", nil)
 		ctx.SetStatusCode(http.StatusBadRequest)
@@ -129,11 +129,10 @@ func (p *polling) onDataRequest(ctx *types.HttpContext) {
 	isBinary := ctx.Headers().Peek("Content-Type") == "application/octet-stream"
 
 	if isBinary && p.Protocol() == 4 {
+		p.dataCtx.Store(nil)
 		p.OnError("invalid content", nil)
 		return
 	}
-
-	p.dataCtx.Store(ctx)
 
 	var cleanup types.Callable
 
